@@ -155,6 +155,10 @@ class _DictIdioms(ast.NodeTransformer):
             def visit_Call(self, n):
                 self.generic_visit(n)
                 f = n.func
+                if isinstance(f, ast.Attribute) and f.attr == 'get' and not n.keywords and len(n.args) == 1 \
+                        and _pure_expr(f.value) and _pure_expr(n.args[0]) and isinstance(
+                            f.value, (ast.Subscript, ast.Attribute)):
+                    n = ast.copy_location(ast.Call(func=f, args=[n.args[0], ast.Constant(value=None)], keywords=[]), n)
                 if isinstance(f, ast.Attribute) and not n.keywords and len(n.args) == 2 \
                         and _pure_expr(f.value) and _pure_expr(n.args[0]):
                     D, k, v = f.value, n.args[0], n.args[1]
@@ -337,6 +341,16 @@ class _Unroll(ast.NodeTransformer):
                 else:
                     new = ast.List(elts=elts, ctx=ast.Load()) if fn.id == 'list' else ast.Tuple(elts=elts, ctx=ast.Load())
                 return ast.copy_location(new, node)
+        if isinstance(fn, ast.Name) and fn.id in ('all', 'any') and len(node.args) == 1 and not node.keywords:
+            lit = node.args[0]
+            if isinstance(lit, ast.Name) and lit.id in self.literals:
+                lit = self.literals[lit.id]
+            if isinstance(lit, (ast.Tuple, ast.List)) and 0 < len(lit.elts) <= MAX_UNROLL and all(
+                    _simple_elt(x) for x in lit.elts):
+                elts = [copy.deepcopy(x) for x in lit.elts]
+                new = elts[0] if len(elts) == 1 else ast.BoolOp(
+                    op=ast.And() if fn.id == 'all' else ast.Or(), values=elts)
+                return ast.copy_location(new, node)
         self.generic_visit(node)
         return node
 
@@ -457,6 +471,7 @@ class Inliner:
         self.inlined_calls = {}           # helper qual -> count
         self.kept_calls = {}
         self.module_funcs = {}            # private module-level functions of this module
+        self.local_funcs = {}             # closures (nested def / lambda) of the function being normalised
 
     def helper(self, cls_chain, name):
         for c in cls_chain:
@@ -469,7 +484,10 @@ class Inliner:
         return self.module_funcs.get(name)
 
     def eligible(self, h, name, caller, allow_generator=False):
-        if h is None or h is caller or name in self.no_inline or not name.startswith('_') or name.startswith('__'):
+        if h is None or h is caller:
+            return False
+        if not getattr(h, '_closure', False) and (
+                name in self.no_inline or not name.startswith('_') or name.startswith('__')):
             return False
         if (_contains_yield(h) and not allow_generator) or len(list(_walk_no_nested(h))) > 800:
             return False
@@ -494,6 +512,8 @@ class Inliner:
         if self._self_call(call):
             o, h = self.helper(chain, call.func.attr)
             return o, h, call.func.attr
+        if isinstance(call, ast.Call) and isinstance(call.func, ast.Name) and call.func.id in self.local_funcs:
+            return None, self.local_funcs[call.func.id], call.func.id
         if isinstance(call, ast.Call) and isinstance(call.func, ast.Name) and call.func.id in self.module_funcs:
             h = self.module_funcs[call.func.id]
             return None, h, call.func.id
@@ -911,6 +931,47 @@ def _forward_process_temps(fn):
             n.body.append(ast.Pass())
 
 
+def _closures(fn):
+    """N9: local helper closures of `fn` -- nested defs and `name = lambda ...` bound exactly once.
+    A call of a closure evaluates its body with the enclosing variables as they are at the call
+    (late binding), which is what substituting the body at the call site does."""
+    stores = {}
+    for n in _walk_no_nested(fn):
+        if isinstance(n, ast.Name) and isinstance(n.ctx, (ast.Store, ast.Del)):
+            stores[n.id] = stores.get(n.id, 0) + 1
+    out = {}
+
+    def scan(stmts):
+        for st in stmts:
+            if isinstance(st, ast.FunctionDef) and not st.decorator_list:
+                if stores.get(st.name, 0) == 0 and st.name not in out:
+                    st._closure = True
+                    st._module_level = True
+                    out[st.name] = st
+                else:
+                    out[st.name] = None
+            elif isinstance(st, ast.Assign) and len(st.targets) == 1 and isinstance(st.targets[0], ast.Name) \
+                    and isinstance(st.value, ast.Lambda) and stores.get(st.targets[0].id) == 1:
+                lam = st.value
+                d = ast.FunctionDef(name=st.targets[0].id, args=lam.args,
+                                    body=[ast.copy_location(ast.Return(value=lam.body), lam)],
+                                    decorator_list=[], returns=None, type_comment=None)
+                ast.copy_location(d, st)
+                ast.fix_missing_locations(d)
+                d._closure = True
+                d._module_level = True
+                out[d.name] = d
+            for field in ('body', 'orelse', 'finalbody'):
+                sub = getattr(st, field, None)
+                if isinstance(sub, list) and not isinstance(st, (ast.FunctionDef, ast.AsyncFunctionDef, ast.ClassDef)):
+                    scan(sub)
+            for h in getattr(st, 'handlers', []) or []:
+                scan(h.body)
+    scan(fn.body)
+    # the parameters of a closure must not shadow / be captured by names used at the call sites
+    return {k: v for k, v in out.items() if v is not None}
+
+
 def normalize_module(tree, no_inline, all_classes=None):
     """Normalise one module in place.  Returns {helper qual: inlined call count}."""
     tree = _DictIdioms().visit(tree)
@@ -940,6 +1001,7 @@ def normalize_module(tree, no_inline, all_classes=None):
     for c in classes.values():
         ch = chain(c)
         for fn in [b for b in c.body if isinstance(b, ast.FunctionDef)]:
+            inl.local_funcs = _closures(fn)
             for _ in range(3):
                 t1 = _InlineExprs(inl, ch, fn, qual_of)
                 t1.visit(fn)
